@@ -84,6 +84,18 @@ def run(ctx):
         ctx.counters['chk:commute'] += 1
         ctx.check(np.asarray(g_then).tobytes() == np.asarray(then_g).tobytes(), 'commute:gate-then-convert-differs',
                   cid, shapes=[list(g_then.shape), list(then_g.shape)])
+        # ... and the same limits: the limits are a function of the old limits and the parameters alone, whichever events
+        # are left (a gate may leave none at all)
+        rr = lambda x: [None if r is None else [float(r[0]), float(r[1])] for r in x.range()]
+        ctx.check(rr(g_then) == rr(then_g), 'commute:gate-then-convert-other-limits', cid, got=rr(g_then), want=rr(then_g))
+        if cid[1] % 2 == 0:
+            e = s[:0] if rng.random() < 0.5 else F.gate.high_low(s, high=-1.0)      # a sample without events
+            with np.errstate(all='ignore'):
+                oe = core.attempt(lambda: F.transform.to_mef(F.transform.to_rfi(e, chans, at, ag, None), mchans, crv, mchans))
+            ctx.counters['chk:commute'] += 1
+            if ctx.check(not oe.raised, 'empty-sample-conversion-raised', cid, exc=core.exc_str(oe.exc) if oe.raised else None):
+                ctx.check(oe.value.shape[0] == 0 and rr(oe.value) == rr(mef), 'commute:empty-sample-other-limits', cid,
+                          got=rr(oe.value), want=rr(mef))
         # --- generic transform() with a NumPy function
         m_, b_ = zoo.power_curves(rng, 1)[0]
         fx = zoo.make_curve(m_, b_)
